@@ -51,6 +51,7 @@ type GenOpts struct {
 	NoStartEnd  bool
 	SelectorOnly bool
 	Focus        string // "" | range | agg | bin | func : construct forced at the top of the expression
+	Epoch        bool   // shift the window so that one of its steps is at -1ms (times around and before the epoch)
 }
 
 var metricNames = []string{"foo", "bar"}
@@ -631,6 +632,15 @@ func genCase(seed int64, id int, o GenOpts) *Case {
 		return c
 	}
 	c.Window = genWindow(r)
+	if o.Epoch {
+		k := int64(0)
+		if c.Window.Step > 0 {
+			k = int64(r.Intn(int((c.Window.End-c.Window.Start)/c.Window.Step) + 1))
+		}
+		d := -1 - (c.Window.Start + k*c.Window.Step)
+		c.Window.Start += d
+		c.Window.End += d
+	}
 	c.Lookback = pick(r, []int64{0, 0, 30_000, 300_000, 90_000, 1_000})
 	if r.Intn(6) == 0 {
 		c.QLookback = pick(r, []int64{45_000, 10_000, 600_000})
